@@ -21,16 +21,17 @@ func TestMakeExemplars(t *testing.T) {
 		t.Skip("VERIF_MAKE_EXEMPLARS not set")
 	}
 	layouts := map[string]LayoutCase{
-		"F15-comment-behind-operator":     {Toks: []pratt.Tok{id("a"), op("+"), id("b")}, Seps: []string{"", "", "/*c*/", ""}, Comments: true},
+		"F15-comment-behind-operator":      {Toks: []pratt.Tok{id("a"), op("+"), id("b")}, Seps: []string{"", "", "/*c*/", ""}, Comments: true},
 		"F15-line-comment-behind-operator": {Toks: []pratt.Tok{id("a"), op("+"), id("b")}, Seps: []string{"", "", "//c\n", ""}, Comments: true},
-		"F15-two-comments-in-a-row":       {Toks: []pratt.Tok{id("a"), op("+"), id("b")}, Seps: []string{"", " /*c*//*d*/ ", " ", ""}, Comments: true},
+		"F15-two-comments-in-a-row":        {Toks: []pratt.Tok{id("a"), op("+"), id("b")}, Seps: []string{"", " /*c*//*d*/ ", " ", ""}, Comments: true},
 		"F15-comment-as-only-separator": {Toks: []pratt.Tok{kw("let"), id("x"), op("="), id("a"), pu(";"), id("x")},
 			Seps: []string{"", "/*c*/", "", "", "", "", ""}, Comments: true},
 		"F15-empty-comment-before-keyword": {Toks: []pratt.Tok{kw("if"), id("a"), kw("then"), id("b"), kw("else"), id("x")},
 			Seps: []string{"", " ", "/**/", " ", " ", " ", ""}, Comments: true},
-		"F16-line-of-token-before-multiline-comment": {Toks: []pratt.Tok{id("a"), op("+"), id("b")}, Seps: []string{"", "/*\n\n*/", "", ""}, Comments: true},
+		"carriage-returns-inside-a-block-comment":     {Toks: []pratt.Tok{id("a"), op("+"), id("b"), op("*"), id("c")}, Seps: []string{"", "\r\n/* one\r\n   two\r three */\r\n", " ", "\r\n", " ", ""}, Comments: true},
+		"F16-line-of-token-before-multiline-comment":  {Toks: []pratt.Tok{id("a"), op("+"), id("b")}, Seps: []string{"", "/*\n\n*/", "", ""}, Comments: true},
 		"F16-line-of-number-before-multiline-comment": {Toks: []pratt.Tok{num("12"), op("+"), id("b")}, Seps: []string{"\n", "/*\n*/", "\n", "\n"}, Comments: true},
-		"comment-at-end-of-input": {Toks: []pratt.Tok{id("a"), op("+"), id("b")}, Seps: []string{"", " ", " ", " // the end"}, Comments: true},
+		"comment-at-end-of-input":                     {Toks: []pratt.Tok{id("a"), op("+"), id("b")}, Seps: []string{"", " ", " ", " // the end"}, Comments: true},
 	}
 	for name, c := range layouts {
 		os.Setenv("VERIF_FAILFILE", filepath.Join(dir, name+".json"))
